@@ -40,6 +40,7 @@ pub fn case(idx: u64, seed: u64, p: &Params, o: &mut CaseOut) {
     let n = match r.below(8) {
         0 => 1,
         1 => 2,
+        2 if max >= 12 => *r.pick(&[15usize, 16, 17, 31, 33, 64, 65]),
         _ => r.range(1, max),
     };
     let kind = r.below(6);
